@@ -36,6 +36,9 @@ def _copy_tree(root, dst):
 
 def _run_variant(args):
     prop, root, vid, patch, kind = args
+    import gc
+
+    gc.disable()  # the worker is short-lived; collections over tens of thousands of AST nodes per variant dominate otherwise
     from .driver import run_rules
     from .model import AnalysisError
 
